@@ -511,10 +511,11 @@ pub fn model_select2<F1: TryNow, F2: TryNow>(f1: &mut F1, f2: &mut F2) -> Sel2<F
 }
 #[macro_export]
 macro_rules! select {
-    ($p1:pat = $e1:expr => $b1:expr, $p2:pat = $e2:expr => $b2:expr $(,)?) => {{
+    // modelled shape: two branches that both wait on a model queue (`<receiver>.recv()`), e.g. the aggregator loop
+    ($p1:pat = $r1:ident . recv ( ) => $b1:expr, $p2:pat = $r2:ident . recv ( ) => $b2:expr $(,)?) => {{
         let __sel = {
-            let mut __f1 = $e1;
-            let mut __f2 = $e2;
+            let mut __f1 = $r1.recv();
+            let mut __f2 = $r2.recv();
             $crate::model_select2(&mut __f1, &mut __f2)
         };
         match __sel {
@@ -522,5 +523,6 @@ macro_rules! select {
             $crate::Sel2::B($p2) => $b2,
         }
     }};
+    // every other shape compiles but is not modelled (no harness may reach it)
     ($($t:tt)*) => { panic!("tokio::select! with this shape is not modelled") };
 }
